@@ -196,6 +196,20 @@ Fixpoint parse_xstmt (n : nat) (w2f : bool) (ad : bool) (ts : list token) {struc
         (* a let declaration *)
         '(l, r) <~ parse_xvar (S (length rest)) true rest [] ;;
         if stmt_end_ok r then Ok (XLex tt_LetToken l, skip_semi true r) else Fail
+      else if (ty k =? tt_LetToken) && negb ad &&
+              match rest with c :: _ => is_identifier (ty c) || (ty c =? tt_YieldToken) || (ty c =? tt_AwaitToken)
+                                       || (ty c =? tt_OpenBracketToken) || (ty c =? tt_OpenBraceToken) | [] => false end then
+        (* `let` before a binding start where no declaration is allowed (the body of if / while / do / for / with):
+           `let [` is an error ("unexpected let [ in single-statement context"); otherwise the identifier `let` starts an
+           expression statement, which then has to end in front of that token *)
+        match rest with
+        | c :: _ =>
+            if ty c =? tt_OpenBracketToken then Fail
+            else
+              '(e, r') <~ parse_suffix (fuel_for rest) true (EVar (data k)) prec_OpExpr primary rest ;;
+              if stmt_end_ok r' then Ok (XExpr e, skip_semi true r') else Fail
+        | [] => Fail
+        end
       else if ty k =? tt_IfToken then
         r1 <~ expect tt_OpenParenToken rest ;;
         '(c, r2) <~ parse true prec_OpExpr r1 ;;
